@@ -347,11 +347,25 @@ def bounded_newcommand_scope(budget, rng):
     return True, n, ''
 
 
+def bounded_let_char(budget, rng):
+    """A control sequence \\let to a character token can be rebound afterwards (by \\def or by another \\let)."""
+    n = 0
+    for src, exp in ((r'\let\A=a\def\A{b}(\A)', ['(b)']),
+                     (r'\let\A=a\let\A=b(\A)', ['(b)']),
+                     (r'\let\A=a{\def\A{b}(\A)}(\A)', ['(b)', '(a)'])):
+        n += 1
+        got, depth, ln = run_program(src)
+        if got != exp:
+            return False, n, 'probes %r, TeX gives %r for %s' % (got, exp, src), dict(text=src, kind='let-char-rebind')
+    return True, n, ''
+
+
 BOUNDED = [('bounded/api-histories', 'real Context == frame-list model (lookups, membership, lets, category codes, depth, representation invariant) after every step',
             'all histories of length <= 3 over %d operations (push/pop with and without owner, local/global definitions, let, catcode); random histories of length 4-13' % len(OPS),
             bounded_histories),
            ('bounded/programs', 'generated balanced programs: every probe shows the innermost live definition / category, depth back to 1',
             'random programs: nesting depth <= 4 over {}, begingroup, center, quote, $ $, textbf, mbox, tabular cells; def, gdef, let, catcode, makeatletter', bounded_programs),
            ('bounded/global-prefix', '\\global\\def and \\global\\let survive the group', '2 programs', bounded_global_prefix),
-           ('bounded/newcommand-scope', '\\newcommand / \\renewcommand inside a group are local to it', '2 programs', bounded_newcommand_scope)]
-CLASSES = {'global-prefix': is_global_prefix, 'newcommand-scope': lambda w: isinstance(w, dict) and 'newcommand' in str(w.get('text', ''))}
+           ('bounded/newcommand-scope', '\\newcommand / \\renewcommand inside a group are local to it', '2 programs', bounded_newcommand_scope),
+           ('bounded/let-char-rebind', 'a control sequence \\let to a character can be rebound by a later \\def / \\let', '3 programs', bounded_let_char)]
+CLASSES = {'let-char-rebind': lambda w: isinstance(w, dict) and w.get('kind') == 'let-char-rebind', 'global-prefix': is_global_prefix, 'newcommand-scope': lambda w: isinstance(w, dict) and 'newcommand' in str(w.get('text', ''))}
